@@ -510,7 +510,9 @@ func TestC11(t *testing.T) {
 	r := rec("C11")
 	rapid.Check(t, func(t *rapid.T) {
 		c := genC11(t)
+		vstat.InFlight("C11", "spellings", c)
 		f, external := oracleC11(c)
+		vstat.ClearInFlight("C11")
 		r.Eval()
 		r.Count("spellings expanded", len(c.Spellings))
 		r.Count("element calls (base-location entry points)", len(c.Elems)*len(c.Spellings))
